@@ -74,7 +74,25 @@ CHECKS.update({
 
 PENDING = {}
 
+# later additions to the notes / techniques (kept apart from the table above)
+NOTE_APPEND = {
+ "C04": " Scheduler pass: programs L (discovery from a digest against the first relayed delta), G, H; every schedule up to 2 (3) preemptions, routing table mirrors the gossip view at quiescence.",
+ "C05": " Bulk cases: 10-400 endpoints on one node told to peers in complete exchanges, before and after half of the upstreams disconnect.",
+ "C08": " Access-log configurations (log enabled with allow / block lists) x response shapes incl. trailers; every sequence of three placements of an endpoint's upstreams over two nodes. Finding D10 repaired by a fix: commit.",
+ "C11": " Own-identity exploration: what peers remember of a previous incarnation of the local id never changes the restarted node.",
+ "C13": " Two-message sequences (every ordered pair of corpus messages with a node id replaced by invalid UTF-8). Nested-stream cases, one worker process each: finding F4 (unbounded recursion when skipping an unknown value) reproduced as KNOWN-FINDING.",
+ "C16": " Client listener stopped in the middle of a slow reconnect handshake (finding D11 repaired by a fix: commit); tenant upstreams in the mixed-token-lifetime cases.",
+ "C19": " Not-a-number threshold / shed rate are part of the grid (finding D12 repaired by a fix: commit).",
+}
+TECH_APPEND = {
+ "C04": "; plus preemption-bounded exhaustive schedule exploration of digest discovery against relayed deltas (scheduler pass)",
+}
+
 def main():
+    for k, v in NOTE_APPEND.items():
+        CHECKS[k]["note"] += v
+    for k, v in TECH_APPEND.items():
+        CHECKS[k]["technique"] += v
     checks = []
     for pid in sorted(CHECKS):
         c = CHECKS[pid]
@@ -102,13 +120,13 @@ def main():
         },
         "engines": [
             {"name": "E1-gmc", "path": "harness/internal/gw + harness/internal/mc", "serves_properties": ["C02", "C03", "C04", "C11", "C13", "C14", "C18"], "kind_free_text": "explicit-state model checker whose transition function is the real gossip code (replay-based successors, canonical-state dedup)"},
-            {"name": "E2-sched", "path": "shims/verifshim/vsync + harness/internal/sched", "serves_properties": ["C05", "C06", "C11", "C14", "C15", "C17", "C20"], "kind_free_text": "cooperative scheduler + iterative preemption-bounded DFS over real lock acquisitions"},
+            {"name": "E2-sched", "path": "shims/verifshim/vsync + harness/internal/sched", "serves_properties": ["C04", "C05", "C06", "C11", "C14", "C15", "C17", "C20"], "kind_free_text": "cooperative scheduler + iterative preemption-bounded DFS over real lock acquisitions"},
             {"name": "E3-seq", "path": "harness/cmd/vcheck/seq_*.go", "serves_properties": ["C05", "C07", "C11", "C12", "C13", "C15", "C17", "C19"], "kind_free_text": "exhaustive operation-sequence / input-grid enumeration against reference models"},
             {"name": "E4-sys", "path": "harness/internal/e4 + harness/cmd/vcheck/sys_*.go", "serves_properties": ["C01", "C03", "C06", "C07", "C08", "C09", "C10", "C12", "C16", "C18", "C19", "C20"], "kind_free_text": "enumerated configurations / fault points on real piko nodes (component clusters, in-process servers, a subprocess server for kill) on loopback"},
         ],
         "checks": checks,
         "not_applicable": na,
-        "notes": "fix: commits in /repo repair findings D1 (C05), D2 (C17), D3 (C08), D4 (C18), D6 (C13), D7 (C06, C01), D8 (C08), D9 (C18), D10 (C08), D11 (C16), D12 (C19); known_findings.json lists recorded findings F1-F3 and the fixed entries.",
+        "notes": "fix: commits in /repo repair findings D1 (C05), D2 (C17), D3 (C08), D4 (C18), D6 (C13), D7 (C06, C01), D8 (C08), D9 (C18), D10 (C08), D11 (C16), D12 (C19); known_findings.json lists recorded findings F1-F4 and the fixed entries.",
     }
     json.dump(m, open(os.path.join(ROOT, "MANIFEST.json"), "w"), indent=1)
     print("wrote MANIFEST.json with %d checks, %d not claimed" % (len(checks), len(na)))
